@@ -75,6 +75,61 @@ def needs_grouping(t):
                       or (isinstance(u, T.MoveReference) and isinstance(u.moveref_to, (T.Array, T.FunctionType))))
 
 
+CLASS_DECLS = [("a", []), ("*b", ["ptr"]), ("c[2]", ["arr"]), ("&d", ["ref"]), ("*const e", ["cptr"]), ("**f", ["ptr", "ptr"]),
+               ("*g[3]", ["arr", "ptr"]), ("&&h", ["rref"]), ("*volatile *i", ["ptr", "vptr"])]
+
+
+def class_declarator_cases(rng, n):
+    """`key S { body } [cv] d1, d2, …;` — a cv-qualifier written after the closing brace belongs to the type of EVERY declarator
+    of the statement (C++ [dcl.type.cv]); variable, typedef and field contexts; the expected chains come from the written text"""
+    out = []
+    for k in range(n):
+        key, body = rng.choice([("struct", "int m;"), ("class", "int m;"), ("union", "int m; char n;"), ("enum", "A, B"), ("enum class", "A, B")])
+        cv = rng.choice(["", "const", "volatile", "const volatile", "volatile const"])
+        decls = rng.sample(CLASS_DECLS, rng.randint(1, 4))
+        c = rng.choice(["variable", "typedef", "field"])
+        stmt = "%s S%d { %s } %s %s;" % (key, k, body, cv, ", ".join(d for d, _ in decls))
+        if c == "typedef":
+            src = "typedef " + stmt
+        elif c == "field":
+            src = "struct Outer { " + stmt + " };"
+        else:
+            src = stmt
+        out.append((src, c, "S%d" % k, cv, decls))
+    return out
+
+
+def check_class_declarators(src, c, sname, cv, decls):
+    d = parse_string(src)
+    if c == "variable":
+        got = {v.name.segments[-1].name: v.type for v in d.namespace.variables}
+    elif c == "typedef":
+        got = {t.name: t.type for t in d.namespace.typedefs}
+    else:
+        got = {f.name: f.type for f in d.namespace.classes[0].fields}
+    for text, chain in decls:
+        name = text.strip("*&[]0123456789 ").replace("const", "").replace("volatile", "").strip("* ")
+        if name not in got:
+            return "declarator %r: no entity named %r reported (got %s)" % (text, name, sorted(got))
+        t = got[name]
+        for step in chain:
+            want = {"ptr": T.Pointer, "cptr": T.Pointer, "vptr": T.Pointer, "arr": T.Array, "ref": T.Reference, "rref": T.MoveReference}[step]
+            if not isinstance(t, want):
+                return "declarator %r: expected %s at this level, got %s" % (text, want.__name__, type(t).__name__)
+            if step == "cptr" and not t.const:
+                return "declarator %r: `* const` lost its const" % text
+            if step == "vptr" and not t.volatile:
+                return "declarator %r: `* volatile` lost its volatile" % text
+            t = t.ptr_to if want is T.Pointer else t.array_of if want is T.Array else t.ref_to if want is T.Reference else t.moveref_to
+        if not isinstance(t, T.Type):
+            return "declarator %r: innermost type is %s" % (text, type(t).__name__)
+        if getattr(t.typename.segments[-1], "name", None) != sname:
+            return "declarator %r: names %r, not %s" % (text, t.typename.segments[-1], sname)
+        if t.const != ("const" in cv) or t.volatile != ("volatile" in cv):
+            return "declarator %r: base type has const=%s volatile=%s, the text says %r after the closing brace" % (text, t.const, t.volatile, cv)
+    return None
+
+
 def run(ctx):
     rng = ctx.rng("types")
     types = []
@@ -138,6 +193,19 @@ def run(ctx):
         except Exception as e:  # noqa
             ffails.append({"input": src, "error": repr(e)})
     ctx.oracle("flags", len(flag_cases), ffails)
+    cfails = []
+    ccases = class_declarator_cases(ctx.rng("classdecl"), ctx.budget(150, 3000))
+    for src, c, sname, cv, decls in ccases:
+        try:
+            msg = check_class_declarators(src, c, sname, cv, decls)
+        except CxxParseError as e:
+            msg = "rejected: %s" % e
+        except Exception as e:  # noqa
+            msg = "extractor: %r" % e
+        if msg:
+            cfails.append({"input": src, "context": c, "diff": msg})
+    ctx.oracle("class_declarators", len(ccases), cfails)
+    srcs += [c[0] for c in ccases[:60]]
     ctx.extra["per_context"] = per_ctx
     ctx.sample({"type": srcs[len(srcs) // 2] if srcs else None})
     pcommon.parse_corr(ctx, "parse", srcs[:: max(1, len(srcs) // ctx.budget(600, 4000))] + [f[0] for f in flag_cases], proj=pcommon.proj_structure)
